@@ -135,6 +135,8 @@ CORPUS = [
     {"input": list(range(1, 130)), "ops": [{"k": "batch", "n": 64}, {"k": "flatten"}, {"k": "batch", "n": 5}, {"k": "suml"}], "fuse": True},
     {"input": list(range(1, 600)), "ops": [{"k": "parmap", "ordered": True, "w": 4, "a": 2, "b": 0}, {"k": "scan", "z": 0}], "fuse": True},
     {"input": list(range(1, 400)), "ops": [{"k": "parmap", "ordered": False, "w": 8, "a": 1, "b": 1}, {"k": "filter", "m": 3, "r": 1}], "fuse": True},
+    {"input": list(range(1, 41)), "ops": [{"k": "map", "a": 1, "b": 0}, {"k": "filter", "m": 3, "r": 0},
+                                          {"k": "parmap", "ordered": True, "w": 3, "a": 2, "b": 1}], "fuse": True},
     {"input": [5, 5, 5, 6, 6, 5], "ops": [{"k": "dedup"}, {"k": "trymap", "a": 1, "b": 0, "m": 7, "r": 6, "code": 321, "resume": True}], "fuse": False},
 ]
 
@@ -153,11 +155,35 @@ BATCH_BIG = [
 SIZES = [0, 1, 2, 3, 4, 5, 8, 15, 16, 17, 63, 64, 65, 159, 160, 161, 223, 224, 225, 226, 300, 448, 449, 700]
 
 
+def gen_fused_into_par(rng, size):
+    """a run of >= 2 fusable stages containing a Filter that really drops elements, fused (default fusion),
+       directly in front of an (Ordered)ParallelMap; random stages around it"""
+    xs = gen_input(rng, size)
+    pre = []
+    for _ in range(rng.choice([0, 0, 1])):
+        pre.append(gen_op(rng, "Z", False, None, True, False))
+        if out_type(pre[-1], "Z") != "Z" or pre[-1]["k"] in ("parmap",):
+            pre.pop()
+    run = [{"k": "map", "a": rng.choice([1, 2, 3]), "b": rng.randint(-3, 3)}] if rng.random() < 0.7 else []
+    m = rng.choice([2, 3, 4])
+    run.append({"k": "filter", "m": m, "r": rng.randrange(m)})
+    if len(run) < 2 or rng.random() < 0.4:
+        run.append({"k": "map", "a": rng.choice([1, -1, 2]), "b": rng.randint(-3, 3)})
+    par = {"k": "parmap", "ordered": rng.random() < 0.8, "w": rng.choice([1, 2, 3, 4, 8]), "a": rng.choice([1, 2, -1]), "b": rng.randint(-2, 2)}
+    post = []
+    if par["ordered"] and rng.random() < 0.5:
+        post.append(rng.choice([{"k": "scan", "z": 0}, {"k": "dedup"}, {"k": "map", "a": 1, "b": 1}]))
+    return {"input": xs, "ops": pre + run + [par] + post, "fuse": True}
+
+
 def gen_cases(ctx):
     rng = ctx.rng
     n = 600 if ctx.thorough else 130
     cases = [dict(c) for c in CORPUS]
     while len(cases) < n:
+        if len(cases) % 9 == 4:
+            cases.append(gen_fused_into_par(rng, rng.choice([3, 5, 8, 16, 17, 64, 65, 225, 300])))
+            continue
         depth = rng.choice([0, 1, 1, 2, 2, 3, 3, 4, 5, 6, 6])
         r = rng.random()
         size = rng.choice(SIZES[:12]) if r < 0.55 else (rng.choice(SIZES) if r < 0.95 else rng.randint(0, 900))
@@ -311,6 +337,17 @@ def gen_step_cases(ctx):
         if kind == "sink":
             c["script"] = [m for m in c["script"] if m["t"] in ("elem", "complete", "error")] or [{"t": "complete"}]
         cases.append(c)
+    # long scripts: a backlog in the stage's output queue drained in small demand chunks while elements keep coming
+    for _ in range(8 if ctx.thorough else 4):
+        o = rng.choice([{"k": "map", "a": 2, "b": 1}, {"k": "flatmap", "kk": 3}, {"k": "buffer", "n": 4}, {"k": "scan", "z": 0}])
+        script, v = [], 1
+        for _b in range(rng.randint(4, 9)):
+            for _e in range(rng.choice([20, 56, 64, 100, 200, 260])):
+                script.append({"t": "elem", "v": v})
+                v += rng.choice([1, 2, 3])
+            script.append({"t": "req", "n": rng.choice([16, 17, 20, 24, 31, 40])})
+        script += [{"t": "complete"}, {"t": "req", "n": 5000}]
+        cases.append({"kind": "flow", "ops": [o], "init": 224, "refill": 64, "script": script, "long": True})
     for i, c in enumerate(cases):
         c["id"] = i
     return cases
@@ -373,14 +410,26 @@ def norm_out(out):
     return res
 
 
+NOSTATE = [-424242]
+
+
+def has_nostate(r):
+    return any(s.get("state") and s["state"][0] == NOSTATE[0] for s in r.get("steps") or [])
+
+
 def enc_obs(r):
-    """the harness's observation of one step case in the encoding of C45/Tie.v [run_steps]"""
+    """the harness's observation of one step case in the encoding of C45/Tie.v [run_steps]; when the harness could
+       not read the actor's private ledger fields only the messages are compared"""
+    ns = has_nostate(r)
     out = [list(r.get("wire") or [])]
     for s in r.get("steps") or []:
         if s.get("state") is None and not s.get("alive"):
             out.append([0])
         else:
-            out.append([1 if s["alive"] else 0] + list(s["state"] or []) + [-7] + norm_out(list(s.get("out") or [])))
+            st = [] if ns else list(s["state"] or [])
+            if ns and s.get("state") and s["state"][0] == -999:
+                st = [-999]
+            out.append([1 if s["alive"] else 0] + st + [-7] + norm_out(list(s.get("out") or [])))
     return out
 
 
@@ -388,13 +437,17 @@ def coq_zll(xss):
     return "[" + "; ".join(su.coq_zlist(xs) for xs in xss) + "]"
 
 
-def step_model_term(c, orig=False):
+def step_model_term(c, orig=False, ns=False):
     script = "[" + "; ".join(coq_inmsg(m) for m in c["script"]) + "]"
+    sfx = "_ns" if ns else ""
     if c["kind"] == "sink":
+        if ns:
+            # the sink harness appends (items, completions) to the credit: drop all of it
+            return "steps_sink_ns {| c_init := %s; c_refill := %s |} %s" % (su.zl(c["init"]), su.zl(c["refill"]), script)
         return "steps_sink {| c_init := %s; c_refill := %s |} %s" % (su.zl(c["init"]), su.zl(c["refill"]), script)
     if c["kind"] == "source":
         return "steps_src %s %s" % (su.coq_vals(c["input"]), script)
-    return "steps_k (%s) %s" % (coq_kind(c, orig), script)
+    return "steps_k%s (%s) %s" % (sfx, coq_kind(c, orig), script)
 
 
 # ----------------------------------------------------------------------------------- oracle on step runs
@@ -606,13 +659,17 @@ def run(ctx):
                 c["id"], su.coq_ops(c["ops"]), su.coq_vals(c["input"]), su.coq_vals(r["items"]),
                 "None" if r["err"] is None else "(Some %s)" % su.zl(r["err"]), su.zl(r["terminals"]), "true" if r["done"] else "false"))
         slines = []
+        n_nostate = 0
         for c in scases:
             r = sres.get(c["id"])
             if r is None:
                 continue
             obs = coq_zll(enc_obs(r))
-            m1 = "zll_eqb (%s) %s" % (step_model_term(c), obs)
-            m0 = "zll_eqb (%s) %s" % (step_model_term(c, True), obs) if c["kind"] == "batch" else "false"
+            ns = has_nostate(r)
+            if ns:
+                n_nostate += 1
+            m1 = "zll_eqb (%s) %s" % (step_model_term(c, False, ns), obs)
+            m0 = "zll_eqb (%s) %s" % (step_model_term(c, True, ns), obs) if c["kind"] == "batch" else "false"
             slines.append("(%d, %s, %s)" % (c["id"], m1, m0))
         body = """From Coq Require Import ZArith List Bool. Import ListNotations.
 From GV Require Import C45.Model C45.Tie.
@@ -632,6 +689,7 @@ Eval vm_compute in summary.
             npipes, bad_pipes, nsteps, bad_steps = su.parse_coq_value(m_.group(1))
             ctx.coverage["model_rejects_pipelines"] = len(bad_pipes)
             ctx.coverage["model_step_mismatches"] = len(bad_steps)
+            ctx.coverage["step_cases_without_ledger_snapshot"] = n_nostate
             # model and independent oracle must agree on every black-box run
             dis = sorted(set(bad_pipes) ^ set(bad_py))
             if dis:
@@ -649,7 +707,7 @@ Eval vm_compute in summary.
 From GV Require Import C45.Model C45.Tie.
 Open Scope Z_scope.
 Eval vm_compute in (%s).
-""" % step_model_term(c))
+""" % step_model_term(c, False, has_nostate(sres[c["id"]])))
                 ctx.tie_broken("actor-step conformance %s vs C45/Model.v" % c["kind"],
                                {"mismatching_cases": len(other), "first_case": c, "implementation": enc_obs(sres[c["id"]]),
                                 "model": " ".join(o3.split())[-3000:]})
@@ -708,7 +766,8 @@ META = {
             "operators; sem is the familiar list function per operator; ParallelMap emits a permutation (stage-level); flowActor never emits beyond demand. "
             "Every run: ~130 generated pipelines (depth 0..6, sizes around the demand window 224 / refill 64) through the public API on a real ActorSystem "
             "judged by the Coq sem via vm_compute and by an independent Python list semantics; ~240 message scripts driven through the REAL stage actors "
-            "between probe actors (parallel stage with scripted worker completion order), every step's outgoing messages and ledger compared with the Coq handlers.",
+            "between probe actors (parallel stage with scripted worker completion order; long backlog/partial-drain scripts for the output queue), every step's outgoing messages and ledger compared with the Coq handlers "
+            "(ledger fields are read by reflection: if they disappear the comparison falls back to the messages). One generated pipeline in nine is a fused run of >=2 stateless stages with a dropping Filter directly in front of an (Ordered)ParallelMap.",
     "design_ref": "DESIGN.md 7/C45",
     "level_note": "Trusted: Coq kernel, the Go harness (pipeline builder, probes, encodings), the actor runtime's per-sender FIFO and Shutdown semantics (modelled as FIFO links / stopped actors never step). "
                   "Not proved: liveness (that a terminal signal eventually arrives) - checked on every run by the timeout-confirmed stall oracle; unordered ParallelMap inside a chain (stage-level theorem only); "
